@@ -19,7 +19,7 @@ import (
 
 // nativeTunnel drives the same scenario over a real in-memory connection with
 // the real crypto/tls and a real MITM authority (replay only).
-func nativeTunnel(p *Proxy, connect, inner []byte, startsTLS bool, n int, shaped bool) {
+func nativeTunnel(p *Proxy, connect, inner []byte, startsTLS bool, n int, shaped, tlsListener bool) {
 	ca, priv, err := mitm.NewAuthority("verif", "verif", time.Hour)
 	if err != nil {
 		panic(err)
@@ -35,6 +35,15 @@ func nativeTunnel(p *Proxy, connect, inner []byte, startsTLS bool, n int, shaped
 		defer close(done)
 		defer cc.Close()
 		cc.SetDeadline(time.Now().Add(5 * time.Second))
+		var cc net.Conn = cc
+		if tlsListener {
+			// the proxy itself is reached over TLS: the CONNECT travels inside that connection
+			oc := tls.Client(cc, &tls.Config{InsecureSkipVerify: true, ServerName: "proxy.test"})
+			if err := oc.Handshake(); err != nil {
+				return
+			}
+			cc = oc
+		}
 		cc.Write(connect)
 		br := bufio.NewReader(cc)
 		if res, err := http.ReadResponse(br, &http.Request{Method: "CONNECT"}); err != nil || res.StatusCode != 200 {
@@ -62,6 +71,9 @@ func nativeTunnel(p *Proxy, connect, inner []byte, startsTLS bool, n int, shaped
 	if shaped {
 		sc = trafficshape.NewListener(nil).GetTrafficShapedConn(pc)
 	}
+	if tlsListener {
+		sc = tls.Server(sc, mc.TLS())
+	}
 	serveConn(p, sc)
 	<-done
 }
@@ -72,6 +84,7 @@ type tunnelRec struct {
 	hasTLS       bool
 	session      *Session
 	hijackedConn net.Conn
+	tlsName      string // req.TLS.ServerName: stands for "which connection's TLS state is attached"
 }
 
 // tunnelMod records what the modifiers are shown for every request.
@@ -87,6 +100,9 @@ func (m *tunnelMod) ModifyRequest(req *http.Request) error {
 		c, _, err := ctx.Session().Hijack()
 		vf.Assert(err == nil, "hijack-succeeds")
 		r.hijackedConn = c
+	}
+	if req.TLS != nil {
+		r.tlsName = req.TLS.ServerName
 	}
 	m.recs = append(m.recs, r)
 	return nil
@@ -132,7 +148,9 @@ func VerifC05Tunnel() {
 	p.SetResponseModifier(m)
 	// the listener the connection was accepted on: plain, or traffic-shaped (the proxy then sees
 	// a *trafficshape.Conn, and wraps the decrypted connection in one as well)
-	shaped := vf.Choice("traffic-shaped-listener", 2) == 1
+	lk := vf.Choice("traffic-shaped-listener", 3)
+	shaped := lk == 1
+	tlsListener := lk == 2 // the proxy is served on a TLS listener: the CONNECT arrives on a TLS connection
 	if vf.Symbolic() {
 		var segs [][]byte
 		if startsTLS {
@@ -141,13 +159,19 @@ func VerifC05Tunnel() {
 			segs = [][]byte{connect, inner.Bytes()}
 		}
 		p.SetMITM(new(mitm.Config))
+		if tlsListener {
+			segs[0] = append([]byte{0x16, 0x01}, segs[0]...) // the hello of the outer connection
+		}
 		var cc net.Conn = newClientConn("client", true, segs...)
 		if shaped {
 			cc = trafficshape.NewListener(nil).GetTrafficShapedConn(cc)
 		}
+		if tlsListener {
+			cc = tls.Server(cc, &tls.Config{})
+		}
 		serveConn(p, cc)
 	} else {
-		nativeTunnel(p, connect, inner.Bytes(), startsTLS, n, shaped)
+		nativeTunnel(p, connect, inner.Bytes(), startsTLS, n, shaped, tlsListener)
 	}
 
 
@@ -179,12 +203,15 @@ func VerifC05Tunnel() {
 			} else {
 				vf.Assert(r.host == "example.com", "host-is-the-requests-host")
 			}
+			if tlsListener {
+				vf.Assert(r.tlsName != m.recs[0].tlsName, "tunnelled-request-carries-the-tunnels-tls-state-not-the-listeners")
+			}
 			if r.hijackedConn != nil {
 				_, isTLS := r.hijackedConn.(*tls.Conn)
 				_, isShaped := r.hijackedConn.(*trafficshape.Conn)
 				vf.Assert(isTLS || (shaped && isShaped), "hijacker-after-upgrade-receives-the-decrypted-connection")
 			}
-		} else {
+		} else if !tlsListener {
 			vf.Assert(r.scheme == "http" && !r.secure && !r.hasTLS, "non-tls-tunnel-handled-as-plain-http-on-an-insecure-session")
 		}
 	}
